@@ -102,6 +102,7 @@ def main():
         return 3
     timeout_ms = 20000 if tier == 'quick' else 60000
     axioms = smt.class_axioms()
+    smt._NO_RETRY[:] = [k['obligation'] for k in load_known_findings() if k.get('status') == 'open']
     results = verify.verify_many(spec, P['functions'], axioms + smt.literal_axioms(), timeout_ms)
     refused = [(r.key, r.refused) for r in results if r.refused]
     obls, canaries = [], []
